@@ -9,6 +9,44 @@ def norm(v):
     return ["noResult" if x == "noOutcome" else x for x in v]
 
 
+def process_protocol(ctx, binp):
+    """Process.tla: how a peer process is stopped (abort, grace period, forced close, give up); bound to the real runCommand."""
+    allowed = {}
+    for kind in ("polite", "stubborn", "holder"):
+        ctx.tlc("Process", "MC_Process_%s.cfg" % kind, timeout=600)
+        g = ctx.tlc("Gen_Process", "Gen_Process_%s.cfg" % kind, timeout=600)
+        for x in g.json_lines("SCN "):
+            allowed.setdefault(kind, set()).add(x["result"].replace("exit-error", "exited").replace("exit", "exited").replace("exiteded", "exited"))
+    allowed["selfexit"] = {"exited"}
+    kinds = ["polite", "selfexit"] + ([] if ctx.quick else ["stubborn", "holder"])
+    outp = os.path.join(ctx.build, "c11.proc")
+    ctx.run_harness(binp, "TestVerifC11Process", env=dict(VERIF_OUT=outp, VERIF_KINDS=",".join(kinds)), timeout=120)
+    obs = vf.read_ndjson(outp)
+    if len(obs) != len(kinds):
+        raise vf.Machinery("process harness returned %d observations for %d kinds" % (len(obs), len(kinds)))
+    for o in obs:
+        why = None
+        if o.get("start_err"):
+            raise vf.Machinery("could not start helper process: %s" % o["start_err"])
+        if o.get("hang"):
+            why = "result() did not return within 25 s after abort (two 5 s grace periods allowed)"
+        elif o["result"] not in allowed[o["kind"]]:
+            why = "result class %s not among %s" % (o["result"], sorted(allowed[o["kind"]]))
+        elif o["seconds"] > 13:
+            why = "stopping took %.1f s, more than two grace periods" % o["seconds"]
+        elif o["kind"] in ("polite", "selfexit") and o["seconds"] > 4:
+            why = "a cooperative peer took %.1f s to be reaped" % o["seconds"]
+        elif o["fired"] != [1, 1]:
+            why = "whenDone callbacks fired %s times, exactly once each is required" % o["fired"]
+        elif not o["stable"] or o["second_result_us"] > 500000:
+            why = "result() is not stable/immediate on the second call"
+        if why:
+            ctx.candidate(dict(kind="process-" + o["kind"], why=why.split(" ")[0]), "process stop protocol (%s peer): %s; observed %s" % (o["kind"], why, json.dumps(o)), o)
+    ctx.cov["traces_validated_against_impl"] += len(obs)
+    ctx.cov["evaluations"] += len(obs)
+    ctx.notes["process_protocol"] = dict(kinds=kinds, observed=obs, allowed={k: sorted(v) for k, v in allowed.items()})
+
+
 def run(ctx):
     q = ctx.quick
     mc = ctx.tlc("ServerBatch", "MC_ServerBatch.cfg", timeout=1800)
@@ -32,7 +70,9 @@ def run(ctx):
             scns.append(dict(script=scripts[k]["script"], lines=scripts[k]["lines"], refsrv=refsrv, key=k))
     scnp, outp = os.path.join(ctx.build, "c11.scn"), os.path.join(ctx.build, "c11.out")
     vf.write_ndjson(scnp, scns)
-    binp = ctx.go_test_bin("internal/app/connectconformance", ["c11"], race=True)
+    binp = ctx.go_test_bin("internal/app/connectconformance", ["c11", "peers"], race=True)
+    if not ctx.replay:
+        process_protocol(ctx, binp)
     p = ctx.run_harness(binp, "TestVerifC11Run", env=dict(VERIF_SCN=scnp, VERIF_OUT=outp, VERIF_REPS=3), timeout=3000, check=False)
     if "WARNING: DATA RACE" in p.stdout:
         j = p.stdout.index("WARNING: DATA RACE")
